@@ -180,8 +180,11 @@ func buildWorld(r *gen.Rand, wi int, dir string, thorough bool, wide int, wname 
 		for i := 0; i < wide; i++ {
 			b := labels.NewBuilder(labels.EmptyLabels())
 			b.Set(wname, wideValue(i))
-			if r.Chance(1, 4) {
-				b.Set("a", gen.Pick(r, valuePool["a"]))
+			switch { // deterministic second label: the matching values lie outside the first few
+			case i%5 == 4:
+				b.Set("a", "y")
+			case i%11 == 3:
+				b.Set("a", "x")
 			}
 			w.series = append(w.series, &tseries{lset: b.Labels()})
 		}
@@ -461,6 +464,87 @@ func genWide(r *gen.Rand, w *world) gmatcher {
 	return mkMatcher(w, t, w.wname, v)
 }
 
+// limit stream 2 (labelValuesWithMatchers pre-filter): LabelValues(L, limit 1..5) with a broad
+// matcher on L plus either a restrictive second matcher on L or a matcher on another label, in
+// both orders; the fully matching values tend to lie outside the first N values of L.
+var wideRestrict = []cm{
+	{labels.MatchNotRegexp, "", "v0[0-2]."}, {labels.MatchNotRegexp, "", "v0[0-5]."},
+	{labels.MatchRegexp, "", "v0[3-9].|v0[6-9]."}, {labels.MatchNotRegexp, "", "v00.|v01."},
+	{labels.MatchRegexp, "", "v.*[7-9]"},
+}
+
+func genSameName(r *gen.Rand, w *world) (string, []gmatcher, bool) {
+	var cands []string
+	for n, vs := range w.values {
+		if len(vs) >= 2 {
+			cands = append(cands, n)
+		}
+	}
+	sort.Strings(cands)
+	if len(cands) == 0 {
+		return "", nil, false
+	}
+	name := gen.Pick(r, cands)
+	if w.wide > 0 {
+		name = w.wname
+	}
+	vals := w.values[name] // sorted
+	var first gmatcher
+	switch r.Intn(4) {
+	case 0:
+		first = mkMatcher(w, labels.MatchRegexp, name, ".+")
+	case 1:
+		first = mkMatcher(w, labels.MatchNotEqual, name, "")
+	case 2:
+		first = mkMatcher(w, labels.MatchNotRegexp, name, "zz|nope")
+	default:
+		first = mkMatcher(w, labels.MatchRegexp, name, ".*")
+	}
+	var second gmatcher
+	if r.Chance(3, 5) { // restrictive matcher on the same label
+		if w.wide > 0 {
+			c := gen.Pick(r, wideRestrict)
+			second = mkMatcher(w, c.t, name, c.v)
+		} else {
+			k := 1 + r.Intn(len(vals)-1)
+			excl := make([]string, 0, k)
+			for _, v := range vals[:k] {
+				excl = append(excl, regexp.QuoteMeta(v))
+			}
+			if r.Bool() { // exclude the greatest instead of the smallest values
+				excl = excl[:0]
+				for _, v := range vals[len(vals)-k:] {
+					excl = append(excl, regexp.QuoteMeta(v))
+				}
+			}
+			second = mkMatcher(w, labels.MatchNotRegexp, name, strings.Join(excl, "|"))
+		}
+	} else { // matcher on another label, taken from a stored series that has both
+		var opts [][2]string
+		for _, s := range w.series {
+			if len(s.times) == 0 || s.lset.Get(name) == "" {
+				continue
+			}
+			s.lset.Range(func(l labels.Label) {
+				if l.Name != name {
+					opts = append(opts, [2]string{l.Name, l.Value})
+				}
+			})
+		}
+		if len(opts) == 0 {
+			second = mkMatcher(w, labels.MatchNotEqual, "job", "nope")
+		} else {
+			o := gen.Pick(r, opts)
+			second = mkMatcher(w, labels.MatchEqual, o[0], o[1])
+		}
+	}
+	gms := []gmatcher{first, second}
+	if r.Bool() {
+		gms = []gmatcher{second, first}
+	}
+	return name, gms, true
+}
+
 // genBroad: a matcher that usually keeps many series
 func genBroad(r *gen.Rand, w *world) gmatcher {
 	name := gen.Pick(r, namePool)
@@ -524,6 +608,9 @@ func main() {
 	}
 	for i := 0; i < 97; i++ {
 		intern(wideValue(i))
+	}
+	for _, c := range wideRestrict {
+		intern(c.v)
 	}
 	for _, re := range wideRegexes {
 		intern(re)
@@ -611,6 +698,32 @@ func main() {
 					gms = nil
 				}
 			}
+			forcedName := "" // LabelValues on this name (limit stream 2)
+			forcedLimit := 0
+			if w.wide > 0 && qi >= 6 && qi <= 9 {
+				// corpus for the same-name pre-filter of labelValuesWithMatchers
+				broad := mkMatcher(w, labels.MatchRegexp, w.wname, "v.+")
+				switch qi {
+				case 6:
+					gms = []gmatcher{broad, mkMatcher(w, labels.MatchNotRegexp, w.wname, "v0[0-2].")}
+					forcedLimit = 3
+				case 7:
+					gms = []gmatcher{broad, mkMatcher(w, labels.MatchEqual, "a", "y")}
+					forcedLimit = 2
+				case 8:
+					gms = []gmatcher{mkMatcher(w, labels.MatchNotRegexp, w.wname, "v0[0-2]."), broad}
+					forcedLimit = 3
+				case 9:
+					gms = []gmatcher{mkMatcher(w, labels.MatchEqual, "a", "y"), broad}
+					forcedLimit = 2
+				}
+				forcedName = w.wname
+			}
+			if qi >= 10 && qi <= 12 || (thorough && qi >= 20 && qi <= 25) {
+				if n, g, ok := genSameName(r, w); ok {
+					forcedName, gms, forcedLimit = n, g, 1+r.Intn(5)
+				}
+			}
 			if wi == 0 && qi >= 6 && qi-6 < len(corpus) {
 				gms = nil
 				for _, c := range corpus[qi-6] {
@@ -676,7 +789,7 @@ func main() {
 			if wi == 0 && qi >= 6 && qi-6 < len(corpus) {
 				mint, maxt = math.MinInt64, math.MaxInt64
 			}
-			if w.wide > 0 && qi >= 2 && qi <= 5 {
+			if w.wide > 0 && qi >= 2 && qi <= 9 {
 				mint, maxt = math.MinInt64, math.MaxInt64
 			}
 			// target
@@ -688,6 +801,9 @@ func main() {
 				if qi == 3 {
 					ti = len(w.stores) // DB.Querier
 				}
+			}
+			if w.wide > 0 && qi >= 6 && qi <= 9 {
+				ti = (qi + wi) % 2 // head or block
 			}
 			if ti < len(w.stores) {
 				mode = "Direct"
@@ -724,6 +840,9 @@ func main() {
 			isCorpus := wi == 0 && qi >= 6 && qi-6 < len(corpus)
 			if isCorpus {
 				kindSel = 0
+			}
+			if forcedName != "" && !isCorpus {
+				kindSel, limit = 2, forcedLimit
 			}
 			wideFixed := w.wide > 0 && qi >= 2 && qi <= 5
 			if wideFixed {
@@ -772,6 +891,10 @@ func main() {
 				}
 				if w.wide > 0 && (wideFixed || r.Chance(2, 3)) {
 					name = w.wname
+				}
+				if forcedName != "" {
+					name = forcedName
+					meta.Hit("limit-stream-same-name")
 				}
 				lim, _, err1 := q.LabelValues(ctx, name, &storage.LabelHints{Limit: limit}, ms()...)
 				var hints0 *storage.LabelHints
